@@ -71,26 +71,42 @@ def regen():
     return True, ""
 
 
-def coq_build(clean=False):
-    """Full .vo build of the development (never -vos).  Returns (ok, log, failing_file)."""
+def _ensure_makefile():
+    mk = os.path.join(COQ, "Makefile")
+    if not os.path.exists(mk) or os.path.getmtime(os.path.join(COQ, "_CoqProject")) > os.path.getmtime(mk):
+        sh("coq_makefile -f _CoqProject -o Makefile", cwd=COQ)
+
+
+_REGEN_DONE = False
+
+
+def coq_build(clean=False, targets=None):
+    """Full .vo build (never -vos) of the whole development, or of the given .vo targets and what they depend on.
+    Returns (ok, log, failing_file)."""
+    global _REGEN_DONE
     with Lock("coq"):
-        ok, msg = regen()
-        if not ok:
-            return False, "translator failed: " + msg, "tools/gen_consts.py"
-        if clean or not os.path.exists(os.path.join(COQ, "Makefile")):
-            sh("coq_makefile -f _CoqProject -o Makefile", cwd=COQ)
+        if not _REGEN_DONE or clean:
+            ok, msg = regen()
+            if not ok:
+                return False, "translator failed: " + msg, "tools/gen_*.py"
+            _REGEN_DONE = True
+        _ensure_makefile()
         if clean:
             sh("make clean", cwd=COQ)
-        # regenerate the Makefile when _CoqProject is newer
-        if os.path.getmtime(os.path.join(COQ, "_CoqProject")) > os.path.getmtime(os.path.join(COQ, "Makefile")):
-            sh("coq_makefile -f _CoqProject -o Makefile", cwd=COQ)
-        rc, out, err = sh("timeout 3000 make -j16", cwd=COQ, timeout=3100)
+        cmd = "timeout 3000 make -j16" + ("" if not targets else " " + " ".join(sorted(set(targets))))
+        rc, out, err = sh(cmd, cwd=COQ, timeout=3100)
         failing = None
         if rc != 0:
             m = re.search(r'File "\./([^"]+)", line (\d+)', out + err)
             if m:
                 failing = "%s:%s" % (m.group(1), m.group(2))
         return rc == 0, out + err, failing
+
+
+def module_target(mod):
+    """TSS.X.Y -> theories/X/Y.vo"""
+    parts = mod.split(".")
+    return "theories/" + "/".join(parts[1:]) + ".vo"
 
 
 def props_file(pid):
@@ -130,6 +146,9 @@ def obligations(pid):
 
 # ----------------------------------------------------------------------------- Coq evaluation
 
+_BUILT = set()
+
+
 class Emitter:
     """Builds the text of a cases.v: interns byte strings as named definitions."""
 
@@ -163,6 +182,13 @@ class Emitter:
 
 def coq_eval(tag, requires, body, result_name="M", timeout=1800):
     """Write build/run/<tag>/cases.v, compile it, return the printed value of result_name (string)."""
+    targets = [module_target(m) for m in requires if m.startswith("TSS.")]
+    key = tuple(sorted(targets))
+    if key not in _BUILT:
+        ok, blog, failing = coq_build(targets=targets)
+        if not ok:
+            return None, "cannot build %s: %s\n%s" % (targets, failing, blog[-3000:]), 0.0
+        _BUILT.add(key)
     d = os.path.join(RUN, tag)
     os.makedirs(d, exist_ok=True)
     path = os.path.join(d, "cases.v")
@@ -332,7 +358,18 @@ def proof_stage(chk, pids_props=None):
     if bad:
         chk.violation("grep_gate.txt", "forbidden construct in the Coq development:\n" + "\n".join(bad), no_input=True)
         return False
-    ok, blog, failing = coq_build()
+    props = (pids_props or [chk.pid])
+    in_project = open(os.path.join(COQ, "_CoqProject")).read()
+    targets = ["theories/Props/%s.vo" % p for p in props if ("theories/Props/%s.v" % p) in in_project]
+    # a Props file kept out of _CoqProject (regenerated inputs) is compiled by obligations(); build its imports here
+    for p in props:
+        if ("theories/Props/%s.v" % p) not in in_project:
+            src = open(props_file(p), encoding="utf-8").read()
+            for mod in re.findall(r"\bTSS\.[A-Za-z0-9_.]+", src):
+                t = module_target(mod.rstrip("."))
+                if t[:-1] in in_project:
+                    targets.append(t)
+    ok, blog, failing = coq_build(targets=targets or None)
     if not ok:
         chk.notes.append("coq build failed at %s" % failing)
         chk.violation("coq_build.txt", "the Coq development no longer builds; failing: %s\n\n%s" % (failing, blog[-6000:]),
